@@ -375,27 +375,32 @@ Proof.
   rewrite Eg, N.eqb_refl, E in A. exact A.
 Qed.
 
-(* mutable objects: two different tables serve the same object only when it is the class-level default of
-   `neutron` (no module-level object is stored in an atom any more since f23caea) *)
+(* mutable objects: the object a table serves for (atom, name) and everything hanging below it (magnetic_ff
+   entries, activation records, the sftable array of an Xray object).  Two different tables have one of these in
+   common only when the served object is the class-level default of `neutron` (no module-level object is
+   stored in, or below the data of, an atom since f23caea) *)
 Definition served_obj (g : N) (t : pstate) (X : table) (a : atom) (n : string) : option obj :=
   match getattr (pbase g t) FUEL X a (nid n) (p_g t) with (_, RVal _ o) => o | _ => None end.
+Definition served_objs (g : N) (t : pstate) (X : table) (a : atom) (n : string) : list obj :=
+  match served_obj g t X a n with Some o => o :: subs o | None => [] end.
 Definition obj_eqb (o p : obj) : bool := N.eqb (ocode o) (ocode p).
 Definition is_shared (o : obj) : bool := match o with ODefault _ _ => true | _ => false end.
+Definition serves_default (g : N) (t : pstate) (X : table) (a : atom) (n : string) : bool :=
+  match served_obj g t X a n with Some o => is_shared o | None => false end.
 Definition disjoint_check (g : N) : bool :=
   forallb (fun t =>
     forallb (fun a => forallb (fun n =>
       forallb (fun X => forallb (fun Y =>
         if table_eqb X Y then true else
-        match served_obj g t X a n, served_obj g t Y a n with
-        | Some o, Some p => implb (obj_eqb o p) (is_shared o && str_in n ["neutron"])
-        | _, _ => true
-        end) c10_tables) c10_tables) (names_of_group g)) read_atoms) (R10 g).
+        forallb (fun o => forallb (fun p =>
+          implb (obj_eqb o p) (serves_default g t X a n && str_in n ["neutron"]))
+          (served_objs g t Y a n)) (served_objs g t X a n)) c10_tables) c10_tables) (names_of_group g)) read_atoms) (R10 g).
 Lemma disjoint_check_all : forallb disjoint_check all_groups = true.
 Proof. vm_cast_no_check (eq_refl true). Qed.
 Theorem mutable_disjoint_partial : forall g t X Y a n o p, In g all_groups -> InvG10 g t ->
   In a read_atoms -> In n (names_of_group g) -> X <> Y ->
-  served_obj g t X a n = Some o -> served_obj g t Y a n = Some p -> obj_eqb o p = true ->
-  is_shared o = true /\ n = "neutron".
+  In o (served_objs g t X a n) -> In p (served_objs g t Y a n) -> obj_eqb o p = true ->
+  serves_default g t X a n = true /\ n = "neutron".
 Proof.
   intros g t X Y a n o p Hg I Ha Hn NE SX SY EQ.
   pose proof disjoint_check_all as A. rewrite forallb_forall in A. specialize (A g Hg).
@@ -406,10 +411,18 @@ Proof.
   assert (HY : In Y c10_tables) by (destruct Y; simpl; auto).
   specialize (A HX Y HY).
   assert (table_eqb X Y = false) as NEb by (destruct X, Y; try reflexivity; contradiction).
-  rewrite NEb, SX, SY, EQ in A. simpl in A. apply andb_true_iff in A. destruct A as [A1 A2].
-  split; [exact A1|]. simpl in A2. apply orb_true_iff in A2. destruct A2 as [A2|A2]; [|discriminate].
-  apply String.eqb_eq in A2. exact A2.
+  rewrite NEb in A. rewrite forallb_forall in A. specialize (A o SX). rewrite forallb_forall in A.
+  specialize (A p SY). rewrite EQ in A.
+  change (serves_default g t X a n && str_in n ["neutron"] = true) in A.
+  apply andb_true_iff in A. destruct A as [A1 A2].
+  split; [exact A1|]. apply str_in_In in A2. destruct A2 as [A2|[]]. symmetry. exact A2.
 Qed.
+(* the array of Xray.sftable and the entries of magnetic_ff / neutron_activation are among the tracked objects *)
+Lemma tracked_subobjects :
+  subs (OCache P1 E1 (nid "xray")) = [OSub P1 E1 (nid "xray")]
+  /\ subs (OInst P1 E1 (nid "magnetic_ff")) = [OSub P1 E1 (nid "magnetic_ff")]
+  /\ subs (OInst P1 I11 (nid "neutron_activation")) = [OSub P1 I11 (nid "neutron_activation")].
+Proof. repeat split; vm_compute; reflexivity. Qed.
 
 (* ------------------------------------------------------------------ what is left of the refutations *)
 Definition priv (T : table) (h : list event) : list event := (New T :: Init "density.init" T :: h)%list.
@@ -439,3 +452,10 @@ Theorem former_witnesses_isolated :
                      Read P1 E1 "neutron"]
      = [OSame; OOk; OErr AssertErr; OOk; OOk; OSame].
 Proof. repeat split; vm_compute; reflexivity. Qed.
+
+(* an in-place mutation of T's Xray data (the object and its sftable array) stays in T, and in that atom *)
+Theorem xray_mutation_confined :
+  run init_state [Read Pub E1 "xray"; New P1; Init "xsf.init" P1; New P2; Mut P1 E1 "xray"; Read Pub E1 "xray";
+                  Read Pub XE1 "xray"; Read P2 E1 "xray"; Read P1 E1 "xray"; Read P1 I11 "xray"; Read P1 XE1 "xray"]
+  = [OSame; OOk; OOk; OOk; OOk; OSame; OSame; OSame; OUser; OUser; OSame].
+Proof. vm_compute. reflexivity. Qed.
